@@ -48,7 +48,9 @@ TRUSTED_BASE = [
     "cast of NaN to uint32 (constant axis) modelled as observed on this "
     "machine: blocks of four give 2**31, the remainder 0",
     "_apply_scale is elementwise; np.log computed by the harness",
-    "the de-cythoniser harness/translators/decythonize.py",
+    "the de-cythoniser harness/translators/decythonize.py and the translator "
+    "harness/translators/downsample_pyx.py (Gen/DownsampleGen.v; fixed "
+    "statement skeleton + expression grammar, fails closed)",
     "dclab.cached.Cache (decorator of downsample_grid) is exercised (second "
     "call of every case is a cache hit) but not modelled (C17)",
     "results with more than 600 events are compared through a polynomial "
@@ -621,11 +623,11 @@ def exec_array_case(case, rng):
     results = {}
     for name, mod in mods.items():
         if grid:
-            def fn(mod=mod):
+            def fn(mod=mod, a=a, b=b):
                 return call(mod.downsample_grid, a, b, samples,
                             remove_invalid=ri, ret_idx=True)
         else:
-            def fn(mod=mod):
+            def fn(mod=mod, a=a, b=b):
                 return call(mod.downsample_rand, a, samples,
                             remove_invalid=ri, ret_idx=True)
         clear_cache()
@@ -635,7 +637,7 @@ def exec_array_case(case, rng):
             r2 = fn()               # cached path for downsample_grid
             clear_cache()
             perturb(rng)
-            r3 = fn()
+            r3 = fn(a=a.copy(), b=b.copy())     # other array objects
         t, pr = table_from_calls(rec.calls)
         rows.update(t)
         problems += ["%s: %s" % (name, p) for p in pr]
@@ -879,9 +881,56 @@ def exec_ds_case(case, rng):
                 problems=problems)
 
 
+DTYPE_NOTES = []
+
+
+def exec_dtype_case(case, rng):
+    """float32 copies of the same values: the property (subset, count) must
+    hold; whether the *selection* equals the float64 one is only recorded
+    (norm() rounds differently in binary32: it can differ, see corpus 15)."""
+    import numpy as np
+    mods = get_modules()
+    e = case.get("e", 3)
+    a = pairs_to_array([tuple(p) for p in case["a"]], e)
+    b = pairs_to_array([tuple(p) for p in case["b"]], e)
+    a32, b32 = a.astype(np.float32), b.astype(np.float32)
+    fails = []
+    if not (np.array_equal(a, a32.astype(np.float64), equal_nan=True) and
+            np.array_equal(b, b32.astype(np.float64), equal_nan=True)):
+        fails.append(("dtype case: values not representable in float32", None))
+    samples, ri = int(case["samples"]), bool(case["ri"])
+    for name, mod in mods.items():
+        clear_cache()
+        r64 = call(mod.downsample_grid, a, b, samples, remove_invalid=ri,
+                   ret_idx=True)
+        r32 = call(mod.downsample_grid, a32, b32, samples, remove_invalid=ri,
+                   ret_idx=True)
+        for r, (x, y), tag in ((r64, (a, b), "float64"), (r32, (a32, b32),
+                                                          "float32")):
+            what = "%s downsample_grid[%s](samples=%d)" % (name, tag, samples)
+            if isinstance(r, Exception):
+                fails.append((what + " raised %r" % (r,),
+                              classify_grid(r, a, b, samples, ri)))
+                continue
+            good = np.isfinite(a) & np.isfinite(b)
+            elig = good if ri else np.ones(len(a), dtype=bool)
+            msg = oracle_selection([x, y], [r[0], r[1]], r[2], samples, elig,
+                                   ri, what)
+            if msg:
+                fails.append((msg, None))
+        if not isinstance(r64, Exception) and not isinstance(r32, Exception):
+            DTYPE_NOTES.append("%s: float32 and float64 copies of equal values "
+                               "select %s" % (name, "the same events" if
+                                              np.array_equal(r64[2], r32[2])
+                                              else "DIFFERENT events"))
+    return dict(checks=[], fails=fails, nontrivial=True, problems=[])
+
+
 def exec_case(case, rng):
     if case["kind"] == "ds":
         return exec_ds_case(case, rng)
+    if case["kind"] == "dtype":
+        return exec_dtype_case(case, rng)
     return exec_array_case(case, rng)
 
 
@@ -925,6 +974,12 @@ def gen_cases(rng, thorough, ngrid, nrand, nds):
     else:
         cases.append(big_case(rng, 4000))
     return cases
+
+
+def pre_build(run):
+    """coq/Gen/DownsampleGen.v from the text of dclab/downsampling.pyx"""
+    from .translators import downsample_pyx
+    downsample_pyx.generate(common.REPO, common.COQ)
 
 
 def raise_stack_limit():
@@ -1020,6 +1075,7 @@ def run(run):
                          what="pyx-binary-divergence")
     if "source" not in get_modules():
         run.notes.append("de-cythonised source not available")
+    run.notes.extend(sorted(set(DTYPE_NOTES)))
 
 
 def summarize(flat):
@@ -1055,7 +1111,7 @@ def failing(case, want_fid=False):
 def shrink(run, failure):
     case = failure["case"]
     fid = failure.get("finding")
-    if case.get("kind") not in ("grid", "rand"):
+    if case.get("kind") not in ("grid", "rand") or "e" in case:
         return failure
     if "recipe" in case and case["recipe"]["n"] > 5000:
         return failure
